@@ -63,13 +63,18 @@ _active_clock_var: contextvars.ContextVar[Clock | None] = contextvars.ContextVar
 
 def _set_active_context(heap: EventHeap, clock: Clock) -> None:
     """Set the active simulation context. Called by Simulation.run()."""
-    from happysimulator.core.event import _active_counter_var
+    from happysimulator.core.event import _active_counter_var, _global_counter_value
 
     _active_heap_var.set(heap)
     _active_clock_var.set(clock)
     # Set per-partition event counter if the heap owns one
     heap_counter = getattr(heap, "_event_counter", None)
     if heap_counter is not None:
+        # Events created outside the loop (before the run, or while paused) took
+        # their indices from the global counter.  Everything the loop creates from
+        # here on is younger than all of them, including ones not scheduled yet.
+        if heap_counter.value < _global_counter_value():
+            heap_counter.value = _global_counter_value()
         _active_counter_var.set(heap_counter)
 
 
